@@ -1,6 +1,7 @@
 import TlsProofs.RecordSend
 import TlsProofs.RecordConn
 import TlsProofs.RecordDemo
+import TlsModel.RecordTie
 import TlsProofs.RecordCbc
 /-
   C01 — application data is delivered exactly, in order, for every suite and version; no record
@@ -469,6 +470,117 @@ theorem recordCodec_lawful {S} (P : Prims S) (c : Cfg) (hc : c.WF P)
         (by omega) (by omega) hin hov htag hivl hprot
       refine ⟨{ rv with st := s', earlyOk := false, processed := 0 }, ?_, rfl, rfl, rfl, h4⟩
       simp only [recordCodec, this] }
+
+open Tls.Gen Tls.Rec.Tie
+
+/-! ## tie by regeneration: what the source says now (TlsModel/Gen/Record.lean) is the model
+
+`translate/gen_record.py` re-reads recordlayer.py / tlsrecordlayer.py on every run; the statements
+below fail as soon as the extracted tables, orders or conditions stop being the ones the model
+mirrors, before any search for a concrete failing input starts. -/
+/-- `_getCipherSettings` / `_getMacSettings` / `_getHMACMethod` (with the tag lengths of the AEAD
+    constructors) are the tables the model is instantiated with, and every (cipher row, MAC row)
+    satisfies the numeric side conditions of `unprotect_protect` / `recordCodec_lawful`
+    (`hov`, `htag`, `hivl`, CBC IV block = one cipher block, ChaCha20 IV ≥ 8 bytes) -/
+theorem gen_cipher_table_matches_model :
+    Record.translated = true ∧ cipherRows = some modelCipherRows ∧ Record.macTable = modelMacRows ∧
+    Record.hmacTable = modelHmacRows ∧
+    (modelCipherRows.all fun c => modelMacRows.all fun m => rowSideConditions c m) = true := by decide
+
+
+/-- `calcPendingStates` cuts the key block in the RFC 5246 order (client MAC, server MAC, client key,
+    server key, client IV, server IV) for every table row, keys each pending state from its own
+    slices, and each role writes with its own state and reads with the peer's — in TLS ≤ 1.2 and in
+    `calcTLS1_3PendingState` (key / IV labels, secrets, the constant IV length 12): the two
+    directions pair up, which is the `Sync` premise `stream_fifo` starts from -/
+theorem gen_keyblock_order_matches_model :
+    Record.keyBlockLength = "macLength * 2 + keyLength * 2 + ivLength * 2" ∧
+    (modelCipherRows.all fun c => modelMacRows.all fun m =>
+        sliceRanges Record.keyBlockSlices m.2.1 c.2.1 c.2.2.1 == some (modelSliceRanges m.2.1 c.2.1 c.2.2.1)) = true ∧
+    Record.keyBlockFields = modelKeyBlockFields ∧
+    rolesPairUp (Record.keyBlockRoles.filter fun r => r.2.1 == "self._pendingWriteState" || r.2.1 == "self._pendingReadState") = true ∧
+    Record.fixedIVBlock = "self.version >= (3, 2) and ivLength => getRandomBytes(ivLength)" ∧
+    Record.tls13States = modelTls13States ∧ rolesPairUp Record.tls13Roles = true := by decide
+
+
+/-- the if / elif chains of `sendRecord` and `recvRecord` (conditions in order, callee per branch,
+    the TLS 1.3 wrap, the early-data handler) are the dispatch of the model -/
+theorem gen_dispatch_matches_model :
+    Record.sendWrap = modelSendWrap ∧ Record.sendWrapBody = modelSendWrapBody ∧
+    classify sendCondOf sendAction Record.sendDispatch = some modelSendChain ∧
+    classify recvCondOf recvAction Record.recvDispatch = some modelRecvChain ∧
+    Record.recvAfterDispatch = modelRecvAfterDispatch ∧
+    (∀ a : SendAtoms, firstTrue (SendCond.eval a) modelSendChain = some (modelSendPath a)) ∧
+    (∀ a : RecvAtoms, firstTrue (RecvCond.eval a) modelRecvChain = some (modelRecvPath a)) := by
+  refine ⟨by decide +kernel, by decide +kernel, by decide +kernel, by decide +kernel, by decide +kernel, ?_, ?_⟩
+  · intro ⟨a, b, c, d⟩
+    cases a <;> cases b <;> cases c <;> cases d <;> rfl
+  · intro a
+    simp only [modelRecvChain, firstTrue, RecvCond.eval, modelRecvPath]
+    repeat' split
+    all_goals first | rfl | simp_all
+
+/-- the model's `sendRecord` takes the path `modelSendPath` names -/
+theorem sendRecord_follows_path {S} (P : Prims S) (c : Cfg) (padCb : Option PadCb) (sl : Nat) (st : St S) (t : UInt8) (data : Bytes) :
+    let wrap := c.is13 && c.cipher != .null && t != 20
+    let t' : UInt8 := if wrap then 23 else t
+    let d' := if wrap then innerPlain padCb sl t data else data
+    let mk (r : St S × Bytes) : Option (St S × Rec) := some (r.1, ⟨t', c.recVer.1, c.recVer.2, r.2⟩)
+    sendRecord P c padCb sl st t data =
+      (match modelSendPath (sendAtomsOf c t') with
+       | "ssl2" => none
+       | "plain" => mk (st, d')
+       | "aead" => mk (protAead P c st t' d')
+       | "etm" => (match c.cipher with
+          | .null => mk (protEtm P c false st t' d') | .block => mk (protEtm P c true st t' d') | _ => none)
+       | _ => (match c.cipher with
+          | .null => mk (protMteStream P c false st t' d') | .stream => mk (protMteStream P c true st t' d')
+          | .block => mk (protMteCbc P c st t' d') | .aead => none)) := by
+  simp only [sendRecord, modelSendPath, sendAtomsOf]
+  repeat' split
+  all_goals first | rfl | simp_all
+
+/-- the overflow allowances (+1024+1024, +256 for TLS 1.3 records, +1 for the inner plaintext, +0),
+    the post-processing of `recvRecord`, the fragmentation loop of `_sendMsg` (split condition, loop
+    test, both slices cut BEFORE the send), `recordSize = min(user, negotiated)` and the 2^14
+    defaults are the ones of the model; the generated wire allowances make the model overflow -/
+theorem gen_limits_match_model {S} (P : Prims S) (c : Cfg) (rv : Recv S) (h : Rec) :
+    allowances = some [("wire", 2048), ("wire13", 256), ("plain", 0), ("inner13", 1)] ∧
+    Record.recvPost = modelRecvPost ∧ Record.fragmentation = modelFragmentation ∧
+    (Record.sizeChecks.filter fun r => r.2.2 != "TLSRecordOverflow") =
+      [("RecordSocket.__init__", "recv_record_limit", "2 ** 14"), ("RecordLayer.__init__", "send_record_limit", "2 ** 14")] ∧
+    (∀ w, allowOf "wire" = some w → h.body.length > rv.recvLimit + w → recvRecord P c rv h = .err .record_overflow) ∧
+    (∀ w, allowOf "wire13" = some w → c.tls13record = true → h.body.length > rv.recvLimit + w →
+        recvRecord P c rv h = .err .record_overflow) := by
+  have ha : allowances = some [("wire", 2048), ("wire13", 256), ("plain", 0), ("inner13", 1)] := by decide +kernel
+  refine ⟨ha, by decide +kernel, by decide +kernel, by decide +kernel, ?_, ?_⟩
+  · intro w hw hlen
+    have : w = 2048 := by
+      unfold allowOf at hw; rw [ha] at hw; simp at hw; exact hw.symm
+    subst this
+    unfold recvRecord
+    have : h.body.length > rv.recvLimit + 1024 + 1024 := by omega
+    simp [this]
+  · intro w hw h13 hlen
+    have : w = 256 := by
+      unfold allowOf at hw; rw [ha] at hw; simp at hw; exact hw.symm
+    subst this
+    unfold recvRecord
+    by_cases h1 : h.body.length > rv.recvLimit + 1024 + 1024
+    · simp [h1]
+    · simp [h1, h13, hlen]
+
+
+/-- `addPadding` and `_tls13_de_pad` still have the statement-level normal form the model's
+    `CT.addPadding` / `dePad` mirror (text tie only: these two helpers are not interpreted) -/
+theorem gen_padding_helpers_match_model :
+    Record.addPadding = ["currentLength = len(data)", "blockLength = self.blockSize",
+      "paddingLength = blockLength - 1 - currentLength % blockLength",
+      "paddingBytes = bytearray([paddingLength] * (paddingLength + 1))", "data += paddingBytes", "return data"] ∧
+    Record.dePad = ["for pos, value in izip(reversed(xrange(len(data))), reversed(data)): if value != 0: break else: raise TLSUnexpectedMessage('Malformed record layer inner plaintext - content type missing')",
+      "return (data[:pos], value)"] ∧
+    Record.sendTail = ["data = msg.write()", "contentType = msg.contentType", "padding = 0",
+      "encryptedMessage = Message(contentType, data)"] := by decide +kernel
 
 /-! ## non-vacuity: the hypotheses above are satisfiable, and the conclusions are the expected ones -/
 
